@@ -294,11 +294,39 @@ def planted(rng, small=False):
     return t1, t2
 
 
+def split_shape(rng):
+    """two places see the same unequal sub-lists, split differently between "added" and "removed":
+    place p: removed {X}, added {Y, Z};  place q: removed {X, Y}, added {Z}  (no pair occurs in both
+    orientations, so the distance cache is within its guard; the memoised PAIRING of one place must not
+    be served to the other)"""
+    w = rng.randint(8, 12)
+    base = rng.sample(range(0, 60), w)
+    Z = list(base)
+    Y = list(base)
+    Y[rng.randrange(w)] = rng.randint(70, 79)
+    X = list(base)
+    for i in rng.sample(range(w), 2):
+        X[i] = rng.randint(80, 99)
+    if rng.random() < 0.5:
+        X = X + [rng.randint(100, 110)]
+    common = [rng.choice("stuvwxyz") + str(i) for i in range(4)]
+
+    def cl(l):
+        return [list(i) if isinstance(i, list) else i for i in l]
+    t1 = {"p": cl([X] + common), "q": cl([Y, X] + common)}
+    t2 = {"p": cl([Z, Y] + common), "q": cl([Z] + common)}
+    if rng.random() < 0.5:
+        t1, t2 = [t1["p"], t1["q"], "r"], [t2["p"], "r", t2["q"]]
+        t1[1].append("only-q")
+        t2[2].append("only-q")
+    return t1, t2
+
+
 def gen_inputs(rng, n_planted, n_other):
-    out = []
+    out = [split_shape(rng) + ("split",) for _ in range(max(2, n_planted // 3))]
     for _ in range(n_planted):
         out.append(planted(rng) + ("planted",))
-    while len(out) < n_planted + n_other:
+    while len(out) < n_planted + n_other + max(2, n_planted // 3):
         a, b, _k = c05.gen_pair(rng, alias=False, depth=rng.choice([2, 3, 3]))
         if V.contains_alias(a, b):
             continue
